@@ -302,6 +302,20 @@ def concrete_table(rt):
         cell(f"cgne:indomain{shp}", s.compute, [rq(*shp)], False, s)
     s = Ss.RandomizedSketchProjectPseudoinverse(seed=0, max_iter=5)
     cell("rsp:indomain(1, 3)", s.compute, [rq(1, 3)], False, s)
+    # boundary of every orientation guard: square input is inside the domain of the column AND of the row variant, of the hybrid and
+    # of CGNE; so are 1 x 1 and the extreme aspect ratios on the allowed side
+    for shp in ((1, 1), (2, 2), (3, 3), (3, 1), (4, 2)):
+        s = Ss.RandomizedSketchProjectPseudoinverse(seed=0, max_iter=3)
+        cell(f"rsp_column:indomain{shp}", s.compute_column_variant, [rq(*shp)], False, s)
+        s = Ss.HybridRSPNewtonSchulz(seed=0, max_iter=3, r=1)
+        cell(f"hybrid:indomain{shp}", s.compute, [rq(*shp)], False, s)
+        s = Ss.CGNEQSolver(max_iter=3)
+        cell(f"cgne:indomain{shp}", s.compute, [rq(*shp)], False, s)
+    for shp in ((1, 1), (2, 2), (3, 3), (1, 3), (2, 4)):
+        s = Ss.RandomizedSketchProjectPseudoinverse(seed=0, max_iter=3)
+        cell(f"rsp_row:indomain{shp}", s.compute_row_variant, [rq(*shp)], False, s)
+        s = Ss.RandomizedSketchProjectPseudoinverse(seed=0, max_iter=3)
+        cell(f"rsp:indomain{shp}", s.compute, [rq(*shp)], False, s)
     for shp in ((1, 1), (1, 3), (3, 1)):
         s = Ss.NewtonSchulzPseudoinverse(max_iter=3)
         cell(f"ns:indomain{shp}", s.compute, [rq(*shp)], False, s)
